@@ -175,7 +175,7 @@ func exec(c Case) (v ev.Verdict) {
 	repo4.NameSalt = "zz-"
 	root4 := make([]mvssim.RootReq, len(c.Root))
 	for i, r := range c.Root {
-		root4[len(c.Root)-1-i] = mvssim.RootReq{Name: fmt.Sprintf("n%02d", len(c.Root)-i), Tag: r.Tag}
+		root4[len(c.Root)-1-i] = mvssim.RootReq{Name: fmt.Sprintf("n%02d", len(c.Root)-i), Tag: r.Tag, Ref: r.Ref}
 	}
 	res4 := mvs.NewResolver(cache2, repo4.Dialer(), nil)
 	got4, err := mvs.BuildList(ctx, u.RootConfig(root4), res4)
